@@ -92,6 +92,10 @@ def cases(ctx, n):
                 k = ctx.rng.randrange(len(t) + 1)
                 t = t[:k] + ctx.rng.choice(['\u2028', '\u2029', '\x85', '\x0b', '\x0c', '\x1c', '\x1d', '\x1e', '\r', '\ufeff', '\xa0', '\u3000', '\t']) + t[k:]
         if ctx.rng.random() < 0.1: t = t.rstrip('\n')
+        if ctx.rng.random() < 0.12:
+            # the whole file indented by a common margin (pasted from an email or a code block), blank lines with or without it
+            m = ctx.rng.choice(['  ', '    ', ' ', '\t', '   '])
+            t = ''.join((m + l if (l.strip() or ctx.rng.random() < 0.5) else l) for l in t.splitlines(True))
         out.append((URI, root, t, ctx.rng.random() < 0.4, ctx.rng.random() < 0.4))
     return out
 
